@@ -390,13 +390,15 @@ def run_history(rec, case):
     # share of the histories, behind the real aiohttp adapter and web server
     A = Side(case.get('aio', 'A'), script, hcfg)
     if case.get('aio'):
-        rec.count('histories_on_aiohttp_adapter')
+        rec.count('histories_on_%s_adapter' % {
+            'H': 'aiohttp', 'N': 'tornado'}[case['aio']])
     if hcfg:
         rec.count('histories_with_odd_handlers')
 
     def V(key, msg):
         rec.viol(key, msg + ' ; handlers %r%s' % (
-            hcfg, ' ; asyncio server behind the aiohttp adapter'
+            hcfg, ' ; asyncio server behind the %s adapter' % {
+                'H': 'aiohttp', 'N': 'tornado'}[case['aio']]
             if case.get('aio') else ''),
                  dict(case, actions=acts[:80]))
     timed_seen = set()
@@ -485,6 +487,8 @@ def run_shard(spec):
              for k in range(spec['n'])]
     for c in cases[::4]:
         c['aio'] = 'H'
+    for c in cases[2::4]:
+        c['aio'] = 'N'     # ... and behind the tornado adapter
     scen.run_cases(rec, cases, run_history)
     return rec.result()
 
